@@ -3,7 +3,7 @@
    mapped to their OCaml counterparts; nat stays the unary datatype).
    Run from this directory: coqc -Q ../coq CffVerif Extract.v *)
 From Coq Require Import Extraction ExtrOcamlBasic.
-From CffVerif Require Import BuildTagModel SchedModel ValidateModel FlowSemModel FlowOpModel FlowOpProofs PrologueModel EmitterModel AliasModel ParallelModel.
+From CffVerif Require Import BuildTagModel SchedModel ValidateModel FlowSemModel FlowOpModel FlowOpProofs FlowComplete PrologueModel EmitterModel AliasModel ParallelModel.
 
 (* names of FlowOpModel that clash with SchedModel's are re-exported under op_ *)
 Definition op_canonical := FlowOpModel.canonical.
@@ -16,11 +16,12 @@ Definition op_fail := FlowOpModel.xfail.
 Definition op_jobs := FlowOpModel.all_jobs.
 Definition op_deps := FlowOpModel.jdeps.
 Definition op_uniq := FlowOpProofs.unique_providers_b.
+Definition op_prov := FlowComplete.all_provided_b.
 
 Extraction Language OCaml.
 Extraction "cffmodel.ml" invert eval flip_cff has_cff gen_filename splice
   initc init stepc step run replay is_final wf_cfg_b event_eqb
   validate accepts wf_b funcs provider default_concurrency
   failures result_values calls blocked
-  op_canonical op_run op_valid op_complete op_results op_calls op_fail op_jobs op_deps op_uniq
+  op_canonical op_run op_valid op_complete op_results op_calls op_fail op_jobs op_deps op_uniq op_prov
   prologue mk_stack deliver requests start par_flow.
